@@ -44,6 +44,14 @@ def parseKind (k d : String) : Option Kind :=
   if k == "t" then some .typical else if k == "n" then some .native
   else if k == "p" then (decS d).map .proxy else none
 
+def parseAuthz (t : String) : Option Authz :=
+  if t == "all" then some .all
+  else if t == "none" then some .none
+  else match t.splitOn ":" with
+    | ["s", l] => ((decList l).mapM decS).map .svcs
+    | ["n", l] => ((decList l).mapM decS).map .nodes
+    | _ => none
+
 def doCommit (s : St) (idx : Nat) (w : Write) : St × String :=
   let y := commit s.sys idx w
   ({ sys := y, vers := (idx, y.cat) :: s.vers }, s!"ok q={y.queue.length} {dumpStr y.cat}")
@@ -54,10 +62,10 @@ def stepLine (s : St) (toks : List String) : St × String :=
       (match decBool t with
        | some b => ({ sys := Sys.init b, vers := [] }, "ok")
        | none => (s, "bad-op"))
-  | ["client", id, t, sj, tok, rpc] =>
-      (match id.toNat?, parseKey t sj, decS tok, decBool rpc with
-       | some id, some k, some tok, some rpc => ({ s with sys := addClient s.sys id k tok rpc }, "ok")
-       | _, _, _, _ => (s, "bad-op"))
+  | ["client", id, t, sj, tok, rpc, az] =>
+      (match id.toNat?, parseKey t sj, decS tok, decBool rpc, parseAuthz az with
+       | some id, some k, some tok, some rpc, some az => ({ s with sys := addClient s.sys id k tok rpc az }, "ok")
+       | _, _, _, _, _ => (s, "bad-op"))
   | ["reg", idx, node, addr, "-"] =>
       (match idx.toNat?, decS node, addr.toNat? with
        | some idx, some node, some addr => doCommit s idx (.reg node addr none)
@@ -113,6 +121,12 @@ def stepLine (s : St) (toks : List String) : St × String :=
              | .block => "block"
              | .err .acl => "err:acl"
              | .err _ => "err:force"
+             | .skip st =>
+                 let i := match st with | .item it => it.idx | .eos i _ => i | .nstf => 0
+                 -- inside a snapshot the order of the items is memdb's iteration order: not compared
+                 (match (getClient y id).map (fun c => c.m.h) with
+                  | some (Handler.snap _) => s!"snap i={i}"
+                  | _ => s!"skip i={i}")
              | .ev st c =>
                  let i := match st with
                    | .nstf => 0
@@ -122,7 +136,10 @@ def stepLine (s : St) (toks : List String) : St × String :=
                    | .nstf => "nstf"
                    | .eos _ _ => "eos"
                    | .item _ => "ev"
-                 if c.m.h = .bad then "herr" else s!"{kind} i={i} vi={c.m.index} v={viewStr c.m.view}"
+                 if c.m.h = .bad then "herr"
+                 else match st, c.m.h with
+                   | Step.item _, Handler.snap _ => s!"snap i={i}"
+                   | _, _ => s!"{kind} i={i} vi={c.m.index} v={viewStr c.m.view}"
            ({ s with sys := y }, out)
        | none => (s, "bad-op"))
   | ["unsub", id] =>
